@@ -305,6 +305,10 @@ pub struct Plan {
     pub nodes: Vec<Bk>,
     /// buggify: derived AES-CTR counter block override, identical on every node of the run
     pub iv: Option<IvSpec>,
+    /// the environment seam: what an unset environment variable that the library asks for during an
+    /// operation is answered with (None: it stays unset)
+    #[serde(default)]
+    pub env: Option<String>,
     pub steps: Vec<Step>,
 }
 
